@@ -48,8 +48,10 @@ fn usage() -> ! {
 
 fn main() {
     common::install_quiet_panic_hook();
-    console::set_colors_enabled(false);
-    console::set_colors_enabled_stderr(false);
+    // colours are ON in every run: styled template keys (`{msg:.green}`) then really emit SGR
+    // sequences (the simulated terminal ignores them, the row arithmetic must not count them)
+    console::set_colors_enabled(true);
+    console::set_colors_enabled_stderr(true);
     let args: Vec<String> = std::env::args().skip(1).collect();
     if args.is_empty() {
         usage();
